@@ -201,4 +201,4 @@ class CirculationPump(BranchWOInternalsComponent):
         cp_i1 = fluid.get_heat_capacity(tout)
 
         mass = branch_pit[f:t, MDOTINIT]
-        res_table['qext_w'].values[:] = mass * (cp_i1 * tout - cp_i * t_from)
+        res_table['qext_w'].values[:] = mass * (cp_i1 + cp_i) / 2 * (tout - t_from)
